@@ -390,7 +390,15 @@ class TV:
         self.sigma0 = vals
         start0, end0 = z3.Int("start0"), z3.Int("end0")
         pre = inv + [start0 >= 0]
-        pre += [start0 <= end0] if has_end_check else [start0 < end0]
+        # May feed be entered with an empty chunk?  Decided from the machine and the options, not from the emitted text: the documented
+        # protocol re-invokes feed with the pointer left as-is after a yield code, and a yield on a consuming transition returns after the
+        # advance, i.e. possibly with start == end.
+        n_ = self.nmfu
+        def _yields(a):
+            return isinstance(a, n_.CustomYieldAction) or any(isinstance(x, n_.CustomYieldAction) for x in a.all_subactions())
+        self.empty_chunk_possible = bool(self.c.flagmap.get("ZERO_LEN_INPUT_SUPPORT")) or any(
+            (not t.is_fallthrough) and any(_yields(a) for a in t.actions) for st_ in self.c.cctx.dfa.states for t in st_.transitions)
+        pre += [start0 <= end0] if (has_end_check or self.empty_chunk_possible) else [start0 < end0]
         mk = self.make_exec_factory(vals, pre, None, start0, end0, fname)
         paths = cexec.explore_block(mk, sp["pro"])
         for p in paths:
